@@ -1236,6 +1236,10 @@ fn cc_case_term(out: &Outcome, anchor_seq: u64, fast: &Ans) -> Option<String> {
             let mut o = vec![1, v["from_seq"].as_u64()?];
             let items = v["bundle"]["items"].as_array()?;
             o.push(items.iter().filter(|i| i["type"] == "summary_ref").count() as u64);
+            for i in items.iter().filter(|i| i["type"] == "summary_ref") {
+                // "compaction checkpoint to_seq=<n>"
+                o.push(i["note"].as_str().and_then(|n| n.rsplit('=').next()).and_then(|n| n.parse().ok()).unwrap_or(888_888));
+            }
             for i in items {
                 if i["type"] == "summary_ref" {
                     continue;
@@ -1252,11 +1256,19 @@ fn cc_case_term(out: &Outcome, anchor_seq: u64, fast: &Ans) -> Option<String> {
         _ => return None,
     };
     let frames = coq_list(&(0..a.truth.len()).collect::<Vec<_>>(), |i| coq_cframe(a, *i));
+    // the one bounded scan of the checkpoint sidecar: 10 000 frames / 8 MiB
+    let me = match &out.comp_lens {
+        Some(l) => lines_in_window(l, 8 << 20).min(10_000),
+        None => 10_000,
+    };
     Some(format!(
-        "(let fr := {} in {{| cc_l := fr; cc_mrf := {}; cc_fullf := {}; cc_budgets := {}; cc_anchor := {}; cc_expect := {} |}})",
+        "(let fr := {} in {{| cc_l := fr; cc_mrf := {}; cc_fullf := {}; cc_compf := {}; cc_idxf := {}; cc_me := {}%nat; cc_budgets := {}; cc_anchor := {}; cc_expect := {} |}})",
         frames,
         coq_opt(&out.mr, |ls| format!("(cc_lines fr {})", coq_ixs(ls))),
         coq_opt(&out.full, |ls| format!("(cc_lines fr {})", coq_ixs(ls))),
+        coq_opt(&out.comp, |ls| format!("(cc_lines fr {})", coq_ixs(ls))),
+        coq_opt(&out.idx, |ls| format!("(cc_lines fr {})", coq_ixs(ls))),
+        me,
         coq_list(&budgets, |k| format!("{k}%nat")),
         anchor_seq,
         coq_list_n(&expect)
@@ -1700,6 +1712,8 @@ struct Outcome {
     comp: Option<Vec<(bool, u64)>>,
     mr: Option<Vec<(bool, u64)>>,
     mr_lens: Option<Vec<u64>>, // byte length of every line of the mr sidecar as found
+    comp_lens: Option<Vec<u64>>,
+    idx: Option<Vec<(bool, u64)>>, // comp.idx by line: (entry of a truth checkpoint frame, its seq) / (false, _)
     ord_term: String, // Model/Cache.v `ofile` of the ordinal index at query time
     coh: Coherence,
     messages: Vec<String>,
@@ -1717,6 +1731,29 @@ fn run_case(case: &Case) -> Outcome {
     let comp = abstract_jsonl(&root, &b.id, &abs, Target::Comp);
     let mr = abstract_jsonl(&root, &b.id, &abs, Target::Mr);
     let mr_lens = std::fs::read(target_path(&root, &b.id, Target::Mr)).ok().map(|raw| raw.split_inclusive(|c| *c == b'\n').map(|l| l.len() as u64).collect::<Vec<_>>());
+    let comp_lens = std::fs::read(target_path(&root, &b.id, Target::Comp)).ok().map(|raw| raw.split_inclusive(|c| *c == b'\n').map(|l| l.len() as u64).collect::<Vec<_>>());
+    let idx = std::fs::read(target_path(&root, &b.id, Target::CompIdx)).ok().map(|raw| {
+        raw.split_inclusive(|c| *c == b'\n')
+            .map(|line| {
+                let good = serde_json::from_slice::<Value>(line).ok().filter(|_| line.ends_with(b"\n")).and_then(|v| {
+                    let seq = v.get("seq")?.as_u64()?;
+                    let ck = v.get("checkpoint_id")?.as_str()?.to_string();
+                    if v.get("version")?.as_u64()? != 1 {
+                        return None;
+                    }
+                    // an entry written from the truth checkpoint frame of that seq (faults never fabricate entries)
+                    match abs.truth.get(seq as usize).map(|e| &e.kind) {
+                        Some(EventKind::ContinuityCompactionCheckpointCreated { checkpoint_id, to_seq, .. }) if *checkpoint_id == ck && v.get("to_seq").and_then(|x| x.as_u64()) == Some(*to_seq) => Some(seq),
+                        _ => None,
+                    }
+                });
+                match good {
+                    Some(s) => (true, s),
+                    None => (false, line.len() as u64),
+                }
+            })
+            .collect::<Vec<_>>()
+    });
     let ord_term = coq_ofile(&std::fs::read(target_path(&root, &b.id, Target::Ord)).ok(), &truth_lines(&root, &b.id));
     let coh = coherence(&root, &b.id, &abs);
     let secs = if case.long { 120 } else { 90 };
@@ -1770,7 +1807,7 @@ fn run_case(case: &Case) -> Outcome {
         hung = fast == Ans::Hang || truth == Ans::Hang;
         results.push((q.clone(), fast, truth));
     }
-    Outcome { results, again, read_writer_violations, abs, full, comp, mr, mr_lens, ord_term, coh, messages: b.messages.clone(), op_errors: b.op_errors, writer_checks: b.writer_checks, writer_violations: b.writer_violations.clone(), ord_steps: b.ord_steps.clone(), prov: b.prov.clone() }
+    Outcome { results, again, read_writer_violations, abs, full, comp, mr, mr_lens, comp_lens, idx, ord_term, coh, messages: b.messages.clone(), op_errors: b.op_errors, writer_checks: b.writer_checks, writer_violations: b.writer_violations.clone(), ord_steps: b.ord_steps.clone(), prov: b.prov.clone() }
 }
 
 fn case_json(c: &Case) -> Value {
@@ -1888,6 +1925,7 @@ fn main() {
     // with the acceptance count / limits / visibility rule read from the source (Gen/CompileConsts.v)
     let cc_fn = |f: &str| format!("({f} gen_tail_count gen_recent_limit gen_max_refs gen_ckpt_frame_rule)");
     let mut wc = CaseWriter::new(&a.out.join("cc"), "Model.Compile Model.CacheCompile Gen.CompileConsts", &cc_fn("cc_check_case"), &cc_fn("cc_model_obs"), 25).with_base(1_000_000);
+    let (mut cc_long, mut cc_short) = (0usize, 0usize); // sweep threads / small histories: separate budgets
     let mut distinct = Distinct::default();
     let mut seen_classes: BTreeMap<String, u64> = BTreeMap::new();
 
@@ -2021,15 +2059,17 @@ fn main() {
             // ---- compile through the caches: the loader model.  Claimed for states where the full sidecar and the checkpoint
             // caches are what a rebuild writes (the model's checkpoint source is the projection, its seek window is absent)
             // and the mr sidecar is exact, absent, empty or damaged (unparsable lines) — not for K2m / K1 states
-            if let (Q::Compile { msg }, false, true, true) = (q, a.oracle_only(), out.coh.truth_valid, out.abs.truth.len() <= 200 && wc.total < 1_000_000 + if a.thorough() { 3000 } else { 400 }) {
-                let ck_ok = |s: FileState| matches!(s, FileState::Exact | FileState::Absent);
-                let claimed = out.coh.full == FileState::Exact && ck_ok(out.coh.comp) && ck_ok(out.coh.compidx) && matches!(out.coh.mr, FileState::Exact | FileState::Absent | FileState::Malformed | FileState::Empty);
+            let cc_room = if case.long { cc_long < if a.thorough() { 1500 } else { 300 } } else { cc_short < if a.thorough() { 3000 } else { 450 } };
+            if let (Q::Compile { msg }, false, true, true) = (q, a.oracle_only(), out.coh.truth_valid, out.abs.truth.len() <= 200 && cc_room) {
+                // the checkpoint sidecar and its index in ANY state (the model has their readers with every failure leg)
+                let claimed = out.coh.full == FileState::Exact && matches!(out.coh.mr, FileState::Exact | FileState::Absent | FileState::Malformed | FileState::Empty);
                 let anchor = if out.messages.is_empty() { None } else { Some(if *msg == u64::MAX { out.messages.last().unwrap().clone() } else { out.messages[(*msg as usize) % out.messages.len()].clone() }) };
                 if let (true, Some(seq)) = (claimed, anchor.and_then(|m| out.abs.seq_of_event.get(&m).copied())) {
                     if let Some(term) = cc_case_term(&out, seq, fast) {
                         let id = wc.push(term);
+                        if case.long { cc_long += 1 } else { cc_short += 1 }
                         flagged_case_ids.push(id);
-                        res.bump(&format!("compile_cases_through_loader_model:mr={:?}", out.coh.mr));
+                        res.bump(&format!("compile_cases_through_loader_model:mr={:?} comp={:?} comp.idx={:?}", out.coh.mr, out.coh.comp, out.coh.compidx));
                         if res.case_index.len() < 3000 {
                             res.case_index.insert(id.to_string(), json!({"case": case_json(&Case { ops: case.ops.clone(), queries: vec![q.clone()], long: case.long }), "query": q, "part": "compile loader"}));
                         }
